@@ -230,7 +230,8 @@ def load_known():
         return json.load(f)
 
 
-def run_property(pid, tier, rules_fn, explanation, not_decided, trusted_base=(), extra_assumptions=()):
+def run_property(pid, tier, rules_fn, explanation, not_decided, trusted_base=(), extra_assumptions=(),
+                 selftest_fn=None):
     """rules_fn(ctx) -> list[Rule]; handles evidence, known findings and the exit code"""
     t0 = time.time()
     seed = int(os.environ.get("VERIF_SEED", "0") or 0)
@@ -243,6 +244,24 @@ def run_property(pid, tier, rules_fn, explanation, not_decided, trusted_base=(),
         crash = "anchor not found: %s" % e
     for r in rules:
         r.finish()
+    # checker self-validation on the fixture crate: fire on bad_*, silent on good_*
+    if selftest_fn is not None:
+        try:
+            st = selftest_fn(ctx)
+        except AnchorError as e:
+            st = [("selftest", "anchor: %s" % e, True, False)]
+        ctx.selftest = [{"rule": r_, "fixture": n, "expected_fire": bool(exp), "fired": bool(got)} for r_, n, exp, got in st]
+        sr = Rule(pid + ".selftest", "rule engine fires on the violating fixtures and is silent on their repaired twins",
+                  floor=0, engine="E4 fixtures")
+        for r_, n, exp, got in st:
+            if bool(exp) != bool(got):
+                sr.violations.append(Violation(pid + ".selftest", "%s|%s" % (r_, n),
+                                               "checker self-test failed: fixture %s expected %s, rule %s %s" % (
+                                                   n, "to fire" if exp else "silence", r_, "fired" if got else "was silent")))
+        if not st:
+            sr.violations.append(Violation(pid + ".selftest", "empty", "no fixture was evaluated"))
+        if sr.violations:
+            rules.append(sr)
     known = load_known()
     known_keys = {k["key"]: k for k in known.get("known", []) if k.get("property") == pid}
     violations = []
